@@ -152,6 +152,9 @@ func StdAddrs(n int) []*AddrInfo {
 		l = append(l, &AddrInfo{Name: fmt.Sprintf("d%d", s), Bytes: mkAddr(byte(0xd0+s), 0x44, true, byte(s)), Kind: "sc", Shard: s, DNS: true})
 	}
 	l = append(l, &AddrInfo{Name: "sys", Bytes: append([]byte(nil), SysAddr...), Kind: "sys", Shard: -1})
+	sysv := bytes.Repeat([]byte{255}, 32)
+	sysv[31] = 1
+	l = append(l, &AddrInfo{Name: "sysv", Bytes: sysv, Kind: "sys", Shard: -1})
 	l = append(l, &AddrInfo{Name: "esdtsc", Bytes: append([]byte(nil), ESDTSC...), Kind: "esdtsc", Shard: -1})
 	meta := make([]byte, 32)
 	meta[8], meta[9] = 5, 0
